@@ -134,14 +134,14 @@ class LinearSegment:
         self._physical_lower_limit = None
         self._physical_upper_limit = None
 
-        if self.factor >= 0:
+        if self.factor * self.denominator >= 0:
             self._physical_lower_limit = convert_internal_to_physical_limit(
                 self.internal_lower_limit)
             self._physical_upper_limit = convert_internal_to_physical_limit(
                 self.internal_upper_limit)
         else:
-            # If the scaling factor is negative, the lower and upper
-            # limit are swapped
+            # If the slope (factor/denominator) is negative, the lower
+            # and upper limit are swapped
             self._physical_lower_limit = convert_internal_to_physical_limit(
                 self.internal_upper_limit)
             self._physical_upper_limit = convert_internal_to_physical_limit(
